@@ -300,7 +300,11 @@ pub(crate) mod kit {
     /// channel its event must wake a parked stream -- a wake decision taken from a length sampled BEFORE the suspension is stale by then
     pub(crate) fn uni_resumed_async_send_wakes<C, const N: usize, const M: usize>()
     where C: UniModel<N, M> + ChannelProducer<'static, u32, C::Derived> + ChannelConsumer<'static, C::Derived> + ChannelCommon<u32, C::Derived> {
-        let s = sm::SmState::<M>::first_streams_parked(M as u32);
+        // ANY number of streams 1..=MAX_STREAMS was created (ids 0..live, none dropped) and all of them are parked: a wake-up aimed at a stream id that
+        // was never created wakes nobody (C04 quantifies over every admissible set of live streams, not only over 'all MAX_STREAMS exist')
+        let live: u32 = if C::SYMBOLIC_MANAGER { kani::any() } else { M as u32 };
+        kani::assume(1 <= live && live <= M as u32);
+        let s = sm::SmState::<M>::first_streams_parked(live);
         // the pooled (zero-copy) channels are too heavy for a symbolic fill level here (CBMC ran out of memory): they start with exactly
         // min(MAX_STREAMS, BUFFER_SIZE-1) events pending -- the case in which a length sampled before the suspension says 'nobody to wake'
         let len: u32 = if C::SYMBOLIC_MANAGER { kani::any() } else if M < N { M as u32 } else { N as u32 - 1 };
@@ -320,6 +324,7 @@ pub(crate) mod kit {
         assert!(ch.pending_items_count() == 1,                               "the resumed send's event is pending");
         assert!(sm::total_wakes(M) >= before + 1,                            "the resumed send wakes a parked stream: every stream is parked and the channel was empty, so without a wake-up the event is stuck");
         kani::cover!(len as usize >= M || N <= M, "at least MAX_STREAMS events were pending when the send started (where BUFFER_SIZE allows)");
+        kani::cover!(live < M as u32 || M == 1, "fewer streams than MAX_STREAMS exist (where MAX_STREAMS allows)");
         kani::cover!(true, "end of harness reachable (vacuity guard)");
     }
 
